@@ -21,7 +21,7 @@ ANCHORS = ["hashtable.py::HashTable.__init__", "hashtable.py::HashTable._build_r
 OPS = ["get1", "getv", "getmiss", "set1", "setv", "setvv", "fill", "contains", "hs_contains1", "hs_containsv", "zeros_like", "ones_like", "add", "eq", "items", "to_dict", "getwide"]
 FLOOR_TAGS = ["op:" + o for o in OPS] + ["init:scalar", "init:array", "mod:None", "mod:1", "mod:explicit", "keys:neg", "keys:big", "keys:dense", "keys:small",
                                          "kd:int8", "kd:uint64", "kd:list", "kd:int64", "state:scalar-at-first-write", "derived-table-used"]
-FLOOR_MONITORS = ["c11:step", "c11:readback", "c11:keyset", "c11:must-refuse", "probe:buckets"]
+FLOOR_MONITORS = ["c11:step", "c11:readback", "c11:keyset", "c11:must-refuse", "c11:caller-arrays", "probe:buckets"]
 N_RANDOM = {"quick": 4000, "thorough": 100000}
 KD = ["int8", "int16", "int32", "int64", "uint8", "uint16", "uint32", "uint64", None]
 
@@ -52,7 +52,9 @@ def run(case):
     style = case.get("style", "small")
     tags = ["init:" + ("scalar" if scalar_init else "array"), "mod:" + ("None" if mod is None else ("1" if mod == 1 else "explicit")), "keys:" + style, "kd:" + (kd or "list")]
     kw = {} if mod is None else {"mod": mod}
-    c = attempt(lambda: lib.HashTable(karr(keys, kd), init if scalar_init else np.array(init, dtype=vdt), **kw))
+    kin = karr(keys, kd)
+    vin = init if scalar_init else np.array(init, dtype=vdt)
+    c = attempt(lambda: lib.HashTable(kin, vin, **kw))
     desc0 = "HashTable(keys=%s %s, values=%s, mod=%s)" % (kd, short(keys, 120), short(init, 80), mod)
     if not c.ok:
         return violated("%s raised %r" % (desc0, c), tags)
@@ -208,6 +210,21 @@ def run(case):
                     break
         if bad:
             return violated("%s, history %s: %s" % (desc0, short([o_["op"] for o_ in case["ops"][:si + 1]], 200), bad), tags + ["failed-op:" + name])
+    # the table owns its storage: it never wrote through to the caller's arrays, and the caller changing them afterwards changes nothing
+    CTX.tick("c11:caller-arrays")
+    if isinstance(kin, np.ndarray) and kin.tolist() != list(keys):
+        return violated("%s: the caller's key array was modified by the table: %s" % (desc0, short(kin, 120)), tags + ["caller-array-written"])
+    if isinstance(vin, np.ndarray) and not all(eqval(x, y) for x, y in zip(vin.tolist(), init)):
+        return violated("%s, history %s: the caller's value array was modified through the table: %s (was %s)" % (desc0, short([o_["op"] for o_ in case["ops"]], 160), short(vin, 120), short(init, 120)),
+                        tags + ["caller-array-written"])
+    if isinstance(kin, np.ndarray) and len(kin):
+        kin[...] = kin[::-1].copy() if len(kin) > 1 else kin + np.array(1, dtype=kin.dtype)
+    if isinstance(vin, np.ndarray) and len(vin):
+        vin += np.array(77, dtype=vin.dtype)
+    for nm in list(tables):
+        bad = readback(nm, "the caller overwrote the arrays passed to the constructor")
+        if bad:
+            return violated("%s: %s" % (desc0, bad), tags + ["aliases-caller-array"])
     return held(tags, nontrivial)
 
 
@@ -237,6 +254,8 @@ def gen_keys(rng, kd=None, style=None, nk=None, tier="quick"):
         tries += 1
     keys = list(pool)
     rng.shuffle(keys)
+    if rng.random() < 0.3:
+        keys.sort()        # already in bucket order: no reordering needed by the constructor
     return keys, kd, style, (lo, hi), (lo2, hi2)
 
 
